@@ -76,6 +76,30 @@ type KnownFinding struct {
 	Status    string `json:"status"` // "known" | "fixed"
 	Commit    string `json:"commit,omitempty"`
 	What      string `json:"what"`
+	// optional narrowing: the finding is only this signature under these harness parameters and
+	// with these (integer) inputs of the counterexample; other violations with the same
+	// signature are still reported
+	Params map[string]int `json:"params,omitempty"`
+	Inputs map[string]int `json:"inputs,omitempty"`
+}
+
+// matches reports whether violation v of harness spec is the recorded finding k.
+func (k *KnownFinding) matches(property, sig string, params map[string]int, v *sym.Violation) bool {
+	if k.Property != property || k.Status != "known" || k.Signature != sig {
+		return false
+	}
+	for name, want := range k.Params {
+		if got, ok := params[name]; !ok || got != want {
+			return false
+		}
+	}
+	for name, want := range k.Inputs {
+		got, ok := v.Inputs[name]
+		if !ok || fmt.Sprint(got) != fmt.Sprint(want) {
+			return false
+		}
+	}
+	return true
 }
 
 func loadKnown(verif string) []KnownFinding {
@@ -277,6 +301,27 @@ func (r *Runner) Run() int {
 		for _, sig := range sigs {
 			vs := bySig[sig]
 			violN += len(vs)
+			// violations that are a recorded finding (signature + its narrowing) are set aside; if
+			// others with the same signature remain, one of those is the representative
+			var rest []*sym.Violation
+			hitKnown := -1
+			for _, x := range vs {
+				isK := false
+				for i := range known {
+					if known[i].matches(c.ID, sig, res.Spec.Params, x) {
+						isK = true
+						hitKnown = i
+					}
+				}
+				if !isK {
+					rest = append(rest, x)
+				}
+			}
+			if hitKnown >= 0 && len(rest) > 0 {
+				fmt.Printf("KNOWN-FINDING: property=%s %s (%s)\n", c.ID, known[hitKnown].What, sig)
+				knownHit = append(knownHit, sig)
+				vs = rest
+			}
 			v := vs[0]
 			path := r.writeReplay(h, res.Spec, v)
 			status := "skipped"
@@ -297,7 +342,7 @@ func (r *Runner) Run() int {
 			}
 			isKnown := false
 			for _, k := range known {
-				if k.Property == c.ID && k.Status == "known" && k.Signature == sig {
+				if k.matches(c.ID, sig, res.Spec.Params, v) {
 					isKnown = true
 					fmt.Printf("KNOWN-FINDING: property=%s %s (%s)\n", c.ID, k.What, sig)
 					knownHit = append(knownHit, sig)
